@@ -1,6 +1,8 @@
 import PlumpyModel.PM.Proof3
 import PlumpyModel.PM.Proof12
 import PlumpyModel.PM.Proof14
+import PlumpyModel.PM.Proof15
+import PlumpyModel.PM.Proof13
 import PlumpyModel.PM.LProof12
 import PlumpyModel.Status.Model
 /-!
@@ -214,6 +216,44 @@ that arrive while the run with pauses is held the reference history may have to 
 ticks, hence a permutation instead of an erasure. -/
 def C05_transparent_full : Prop :=
   ∀ (P : Prog) (nf : Nat) (evs : List Ev), admissibleFull P (init nf) evs = true →
+    ∃ evs' : List Ev, (∀ e ∈ evs', e ≠ .pause ∧ e ≠ .play) ∧
+      (evs'.filter (fun e => !isTick e)).Perm ((erasePP evs).filter (fun e => !isTick e)) ∧
+      (fuelOk P (init nf) evs' = true → terminal (run P (init nf) evs).st.label = true →
+        (run P (init nf) evs').st = (run P (init nf) evs).st ∧
+        (run P (init nf) evs').trace = (run P (init nf) evs).trace ∧
+        (run P (init nf) evs').ctx = (run P (init nf) evs).ctx)
+
+/-- **the full statement is false as it stands**: `dupP` awaits ONE external future under TWO context keys (5 and 6) in one
+`ToContext` and then returns what the context holds under key 6.  In `dupHist` the wait is resumed, the future completes, and a
+pause holds the stepping task at the step boundary after the wait; the future's done-callback runs during the hold — as the
+callback of a state that was left it files the result under the LAST key registered (6), and the next step returns 3.  No
+history without pause and play that issues the same three requests (any order, any ticks) ends with result 3: run on the
+WAITING state the callback files the result under the FIRST key (5), run later it is too late for the step that reads the
+context (`dup_no_reference`, an exhaustive exploration of 44 configurations).  The real `to_context` keeps one key per future
+(a dict keyed by the future), so this is a property of the model outside the class of programs it is compared on, not of
+plumpy: on the real library both runs file the result under `k6` (DESIGN.md, C05).  The statement to aim at is
+`C05_transparent_full_distinct`. -/
+theorem C05_transparent_full_false : ¬ C05_transparent_full := by
+  intro h
+  obtain ⟨evs', _, h2, h3⟩ := h dupP 1 dupHist (by decide +kernel)
+  rw [dupHist_reqs] at h2
+  obtain ⟨hf, hne⟩ := dup_no_reference evs' h2
+  have := (h3 hf (by rw [dupHist_result]; decide)).1
+  rw [dupHist_result] at this
+  exact hne this
+
+example : ¬ B10.AwDistinct dupP := by
+  intro h
+  have := h 0 [] [] []
+  simp [dupP, B10.OutOk, B10.DistinctF] at this
+
+/-- **transparency, full statement for programs that never await the same future twice in one `ToContext`** (`AwDistinct`,
+the dict semantics of `Waiting._awaiting`; not proved — `C05_transparent_partial2` proves the instances in which the wake-ups
+arrive at quiet positions or while the process is held on a wait, with the identity permutation; an exhaustive search over
+the histories of length ≤ 11 of a two-wait workchain found no counterexample, and none that needs a reordering of the
+requests: moving ticks suffices). -/
+def C05_transparent_full_distinct : Prop :=
+  ∀ (P : Prog) (nf : Nat) (evs : List Ev), B10.AwDistinct P → admissibleFull P (init nf) evs = true →
     ∃ evs' : List Ev, (∀ e ∈ evs', e ≠ .pause ∧ e ≠ .play) ∧
       (evs'.filter (fun e => !isTick e)).Perm ((erasePP evs).filter (fun e => !isTick e)) ∧
       (fuelOk P (init nf) evs' = true → terminal (run P (init nf) evs).st.label = true →
